@@ -344,3 +344,55 @@ class CLASS_PARSER_GLOBALS:
     tags = {"a_namespace_of_its_own": ["C19", "C17"], "no_input_mutation": ["C19", "C17"]}
     assumes = ["warning_settings.warn does not raise (dropped call)",
                "BaseParser.globals returns the declaring namespace (sys.modules[...].__dict__ / __globals__: external)"]
+
+
+# ------------------------------------------------------------------------------------ LogicalType.register_forward_refs (nested references)
+
+class _ComboWithInlineGenericDesc(Desc):
+    """a combination `T | G` whose second operand G is a generic / constrained type written inline (a Rule class built by
+    the operator, e.g. List['Z']) holding one unevaluated reference among its own arguments"""
+    name = "combination(T, Rule[ForwardRef])"
+
+    def fresh(self, ex, pname):
+        w = ex.world
+        ref = w.models["ForwardRef"].fresh(ex, pname + "_inner_ref", __forward_evaluated__=FALSE)
+        ref.origin = "param:%s.args[1].__args__[0]" % pname
+        rule = w.models["RuleClass"].fresh(ex, pname + "_generic", combinator=NONE)
+        rule.fields["__args__"] = VTup([ref])
+        plain = VCls(ex.fresh(pname + "_plain", V), name="plain")
+        ex.assume(w.is_class(plain.t))
+        # a plain class: neither a reference nor something LogicalType built
+        ex.assume(z3.Not(sym.sub(sym.ty(plain.t), w.classes.of_py(typing.ForwardRef).t)))
+        ex.assume(z3.Not(sym.sub(sym.ty(plain.t), w.repo_class(R, "LogicalType", ex).t)))
+        rec = w.models["LogicalClass"].fresh(ex, pname)
+        rec.fields["args"] = VTup([plain, rule])
+        rec.inner_ref = ref
+        return rec
+
+    def accepts(self, v):
+        return isinstance(v, VRec)
+
+
+@specfn("inner_ref")
+def _inner_ref(ex, fr, cls):
+    return cls.inner_ref
+
+
+@contract(R, "LogicalType.register_forward_refs", props=["C17"])
+class LOGICAL_REGISTER_FORWARD_REFS:
+    """`references nested inside generics and unions`: BOUNDED shape -- a two-operand combination whose second operand is
+    a generic type written inline (`NegativeInt | List['Z']`: built by the operator, before any registry existed).  The
+    reference held by that operand's own arguments is pending in forward_refs afterwards, so the parser's first
+    resolve_forward_refs evaluates it (Rule.resolve_forward_refs then replaces it in the operand's arguments)."""
+    self_model = "LogicalClass"
+    cases = {"|": dict(cls=_ComboWithInlineGenericDesc(), global_vars=NONE, forward_refs=REFS, forward_key=STR, force_clear=BOOL)}
+    returns = {"nested_reference_is_pending": "pending_ref(forward_refs, inner_ref(cls))"}
+    only_raises = []
+    modifies = ["forward_refs", "cls"]
+    assumes = ["BOUNDED: two operands (a plain class, an inline generic with one unevaluated reference), no globals given",
+               "_parse_arg is not reached (no operand is itself a reference)"]
+
+    @staticmethod
+    def setup(ex, frame):
+        c = frame.env["cls"]
+        ex.assume(c.fields["combinator"].t == z3.StringVal("|"))
